@@ -11,6 +11,7 @@ RULE = ('cell = (router class, hash type, destination set, replication factor, D
         'RF>=2; after the fresh sweep up to 4 remove/re-add steps are applied and the oracle is re-run on every 16th '
         'position against the then-configured set; distinct = distinct cells')
 RULE_MORE = (' Also: empty destination sets, node names colliding in the 16-bit hash, instances announced again on another port, name caches (CACHE_METRIC_NAMES_MAX) with repeat lookups after many other keys, aggregated routers checked against the union over their aggregate names.')
+RULE_MORE = RULE_MORE + ' Round 12: look-ups of the same router in flight at once (generator consumed partly, another key routed, then finished).'
 RULE = RULE + RULE_MORE
 EXHAUSTIVE = {'quick': True, 'thorough': True}
 EXHAUSTIVE_OVER = 'ring positions 0..65535 per cell (key space of the ring through the public API)'
